@@ -410,6 +410,51 @@ def run(prog, rep):
                           f'(the scalar or the list form of the value goes unchecked)')
     # R6: range validators order numbers, not text
     # R7: model-element property setters that keep a local copy store it only after the validating write succeeded
+    # R8: "is this a field?" is decided on the declared fields, not by attribute lookup
+    rep.rule('R8', 'the field setters decide whether a name is a field on the declared fields, not by attribute lookup (which also finds methods and class tables)', floor=7)
+    clmod = prog.module('fim.slivers.capacities_labels')
+    for cls8 in clmod.classes.values():
+        sf8 = cls8.methods.get('_set_fields')
+        if sf8 is None or not any(isinstance(x, ast.For) for x in walk_no_nested(sf8)):
+            continue
+        sf8i = inline(prog, cls8, sf8)
+        loops8 = [l for l in walk_no_nested(sf8i) if isinstance(l, ast.For) and isinstance(l.iter, ast.Call) and call_name(l.iter) == 'items']
+        for l8 in loops8:
+            kvar = l8.target.elts[0].id if isinstance(l8.target, ast.Tuple) and isinstance(l8.target.elts[0], ast.Name) else None
+            if kvar is None:
+                continue
+            probes8 = [c for c in ast.walk(l8) if isinstance(c, ast.Call) and call_name(c) in ('__getattribute__', 'getattr', 'hasattr') and
+                       any(isinstance(a, ast.Name) and a.id == kvar for a in c.args)]
+            decl8 = [c for c in ast.walk(l8) if isinstance(c, ast.Compare) and isinstance(c.left, ast.Name) and c.left.id == kvar and
+                     isinstance(c.ops[0], (ast.In, ast.NotIn)) and
+                     any(isinstance(x, ast.Attribute) and x.attr in ('__dict__', '__slots__', '__annotations__') or
+                         (isinstance(x, ast.Call) and call_name(x) in ('list_fields', 'vars', 'fields')) for x in ast.walk(c.comparators[0]))]
+            rep.instance('R8', f'{cls8.name}._set_fields: field test by attribute lookup: {len(probes8)}; by declared fields: {len(decl8)}')
+            if probes8 and not decl8:
+                rep.violation('R8', loc(clmod, probes8[0]), f'{cls8.name}._set_fields', f'{norm(probes8[0], 50)} decides whether `{kvar}` is a field',
+                              f'any attribute name passes this test - methods (to_json, update, list_fields) and class tables (VALIDATORS, UNITS) '
+                              f'too: {cls8.name}({{such a name}}=x) is accepted instead of rejected, the value is written into the model, dropped again '
+                              f'when decoded, and it shadows the method on the object')
+
+    # R9: results of capacity arithmetic bypass the non-negativity validator on purpose (C15); the place where a capacity value
+    # enters a sliver is therefore where the domain has to be enforced
+    rep.rule('R9', 'a sliver accepts a capacities value only if none of its fields is negative (what it stores must decode again)', floor=2)
+    bs9 = prog.cls('fim.slivers.base_sliver:BaseSliver')
+    for mname9 in ('set_capacities', 'set_capacity_allocations'):
+        f9 = bs9.methods.get(mname9)
+        if f9 is None:
+            raise AnalysisError(f'BaseSliver.{mname9} vanished')
+        guards9 = [n for n in walk_no_nested(f9) if isinstance(n, ast.Assert) or (isinstance(n, ast.If) and any(isinstance(x, ast.Raise) for x in ast.walk(n)))]
+        ok9 = any(any(isinstance(x, ast.Call) and call_name(x) == 'negative_fields' for x in ast.walk(g.test)) or
+                  any(isinstance(x, ast.Compare) and isinstance(x.ops[0], (ast.GtE, ast.Lt)) and any(isinstance(y, ast.Constant) and y.value == 0 for y in ast.walk(x))
+                      for x in ast.walk(g.test)) for g in guards9)
+        rep.instance('R9', f'BaseSliver.{mname9}: rejects a value with negative fields: {ok9}')
+        if not ok9:
+            rep.violation('R9', loc(bs9.module, f9), f'BaseSliver.{mname9}', 'accepts capacities with negative fields',
+                          f'{mname9} stores any Capacities object; the difference of two capacities can have negative fields (by design, it is '
+                          f'printable and comparable), and once such a value is on an element it is written to the model as e.g. {{"core": -2}}, '
+                          f'which Capacities.from_json refuses: every later read of the element, and reloading the serialized topology, fails')
+
     rep.rule('R7', 'a model-element setter caches the new value only after the validating write to the model', floor=1)
     me = prog.cls('fim.user.model_element:ModelElement')
     for pname, acc in sorted(me.properties.items()):
